@@ -23,6 +23,29 @@ fuzz_target!(|input: &[u8]| {
             }
         }
     }
+    // selector 2 / 3 (mod 4): structure-aware splice - if the body parses, insert (2) or remove (3) a few
+    // bytes at a structural offset (a chunk boundary, the end of the chunk region, inside the footer)
+    let mut owned;
+    let mut body = body;
+    if head[32] % 4 >= 2 && body.len() > 8 {
+        if let Ok(p) = xv::refs::xorb::parse(body) {
+            let mut offs: Vec<usize> = p.chunks.iter().map(|c| c.start).collect();
+            offs.push(p.content_end);
+            offs.push(p.content_end + (body.len() - p.content_end) / 2);
+            offs.push(body.len().saturating_sub(4));
+            let at = offs[(head[32] as usize >> 2) % offs.len()].min(body.len());
+            let k = 1 + (head[31] as usize % 9);
+            owned = body[..at].to_vec();
+            if head[32] % 4 == 2 {
+                owned.extend((0..k).map(|i| head[i % 31] ^ body[i % body.len()]));
+                owned.extend_from_slice(&body[at..]);
+            } else {
+                owned.extend_from_slice(&body[(at + k).min(body.len())..]);
+            }
+            claimed = p.hash();
+            body = &owned[..];
+        }
+    }
     if let Err(e) = xv::props::c08::check_bytes(body, &claimed, &[7, 300, 1], false) {
         panic!("C08 violated: {e}");
     }
